@@ -432,7 +432,14 @@ Inductive case :=
 | KInversion (objs : list (option scheme * lobj)) (blocks : list qm) (out outr : qm)
 | KRect (H W : nat) (out : list (list Z))                    (* Mesh2DRectangular.neighbors: first sizes[p] entries of row p *)
 | KCov (pts : list (Q * Q)) (tbl : list (Q * Q)) (out : qm)   (* gauss_/exp_cov_matrix_from; tbl: squared distance -> profile value *)
-| KKernel (coef : Q) (cov out : qm).                           (* GaussianKernel / ExponentialKernel .regularization_matrix_from *)
+| KKernel (coef : Q) (cov out : qm)                            (* GaussianKernel / ExponentialKernel .regularization_matrix_from *)
+| KCovX (pts : list (Q * Q)) (tbl : list (Q * Q)) (vals : list Q) (idx : list (list Z))
+                                                            (* the same observation as KCov for a large mesh, the returned matrix
+                                                               written as indexes into the list of its distinct values *)
+| KAssembly (sz : list (nat * bool)) (blocks : list qm) (out outr : qm).
+                                                            (* the assembly alone, for any scheme (kernel schemes included):
+                                                               sz = (params, has a regularization) of each object in list order,
+                                                               blocks = linear_obj.regularization_matrix of each object *)
                                                             (* inversion.regularization_matrix(_reduced);
                                                                blocks = linear_obj.regularization_matrix of each object *)
 
@@ -461,6 +468,33 @@ Definition mat_mul_q (A B : qm) : qm :=
   map (fun r => map (fun j => @dot QOps r (map (fun rb => nth j rb 0) B)) (seq 0 (length (hd [] B)))) A.
 Definition scaled_identity (c : Q) (n : nat) : qm := map (fun a => map (fun b => if Nat.eqb a b then c else 0) (seq 0 n)) (seq 0 n).
 
+Definition qm_eqb := list_eqb qv_eqb.
+Definition assembly_objs (sz : list (nat * bool)) (blocks : list qm) : list (nat * option qm) :=
+  map (fun sb : nat * bool * qm => (fst (fst sb), if snd (fst sb) then Some (snd sb) else None)) (combine sz blocks).
+(* independent of block_diag / delete: the total size, entry (a, b) located by [block_entry] in the list of blocks *)
+Definition assembled (n : nat) (blocks : list qm) (out : qm) : bool :=
+  square n out
+  && forallb (fun a => forallb (fun b => Qeq_bool (@mget QOps out a b) (@block_entry QOps blocks a b)) (seq 0 n)) (seq 0 n).
+Definition all_zero (B : qm) : bool := forallb (forallb (Qeq_bool 0)) B.
+
+(* [close] with a shortcut for syntactically equal rationals (cross-multiplying 120-bit dyadic numbers 10^4 times is slow) *)
+Definition closef (a b : Q) : bool :=
+  if Z.eqb (Qnum a) (Qnum b) then (if Pos.eqb (Qden a) (Qden b) then true else close a b) else close a b.   (* vm_compute is call-by-value: no || *)
+Definition qm_closef := list_eqb (list_eqb closef).
+Definition decode (vals : list Q) (idx : list (list Z)) : qm := map (map (fun i => nth (Z.to_nat i) vals 0)) idx.
+(* the covariance specification, row by row (no random access): entry (a, b) = ridge on the diagonal + profile value of the
+   squared distance, looked up in the table; the matrix equal to its transpose *)
+Definition dist2q (p q : Q * Q) : Q := (snd p - snd q) * (snd p - snd q) + (fst p - fst q) * (fst p - fst q).
+Fixpoint transpose_q (n : nat) (M : qm) : qm :=
+  match n with 0%nat => [] | S n' => map (fun r => hd 0 r) M :: transpose_q n' (map (fun r => tl r) M) end.
+Definition cov_spec (pts : list (Q * Q)) (tbl : list (Q * Q)) (out : qm) : bool :=
+  let n := length pts in
+  square n out && qm_closef out (transpose_q n out)
+  && forallb (fun apr => forallb (fun bqv =>
+        closef (snd (snd bqv))
+              ((if Nat.eqb (fst apr) (fst bqv) then eps8 else 0) + tbl_lookup tbl (dist2q (fst (snd apr)) (fst (snd bqv)))))
+        (indexed (combine pts (snd (snd apr))))) (indexed (combine pts out)).
+
 Definition agree (k : case) : bool :=
   match k with
   | KMatrix s o out => res_eqb qm_close (scheme_matrix s o) out
@@ -474,10 +508,15 @@ Definition agree (k : case) : bool :=
       | None => false
       end
   | KRect H W out => list_eqb (list_eqb Z.eqb) (rect_neighbors H W) out
-  | KCov pts tbl out => qm_close (@cov_matrix QOps eps8 (tbl_lookup tbl) pts) out
+  | KCov pts tbl out => qm_closef (@cov_matrix QOps eps8 (tbl_lookup tbl) pts) out
   | KKernel coef cov out =>
       (* the only model of numpy.linalg.inv is its contract: cov * out = coef * I *)
       list_eqb (list_eqb close_inv) (mat_mul_q cov out) (scaled_identity coef (length cov))
+  | KCovX pts tbl vals idx => qm_closef (@cov_matrix QOps eps8 (tbl_lookup tbl) pts) (decode vals idx)
+  | KAssembly sz blocks out outr =>
+      let mo := assembly_objs sz blocks in
+      Nat.eqb (length sz) (length blocks)
+      && qm_eqb (@inversion_matrix QOps mo) out && qm_eqb (@inversion_matrix_reduced QOps mo) outr
   end.
 
 (* the specification's verdict on what the implementation returned; never calls the loops of the model *)
@@ -515,28 +554,34 @@ Definition spec_ok (k : case) : bool :=
       let n := fold_left Nat.add (map obj_params objs) 0%nat in
       let regd := map snd (filter (fun sb => match fst (fst sb) with Some _ => true | None => false end) (combine objs blocks)) in
       let nr := fold_left Nat.add (map (@length qv) regd) 0%nat in
-      square n out && square nr outr
-      && forallb (fun a => forallb (fun b => Qeq_bool (@mget QOps out a b) (@block_entry QOps blocks a b)) (seq 0 n)) (seq 0 n)
-      && forallb (fun a => forallb (fun b => Qeq_bool (@mget QOps outr a b) (@block_entry QOps regd a b)) (seq 0 nr)) (seq 0 nr)
+      Nat.eqb (length objs) (length blocks)
+      && assembled n blocks out && assembled nr regd outr
+      (* block i = the scheme's own matrix (the symmetric matrix of the scheme's quadratic form) / zero when None *)
       && forallb (fun sb => match fst (fst sb) with
-                            | None => forallb (forallb (Qeq_bool 0)) (snd sb) && square (o_params (snd (fst sb))) (snd sb)
-                            | Some s => square (scheme_size s (snd (fst sb))) (snd sb) end) (combine objs blocks)
+                            | None => all_zero (snd sb) && square (o_params (snd (fst sb))) (snd sb)
+                            | Some s => let m := scheme_size s (snd (fst sb)) in
+                                        square m (snd sb)
+                                        && (if scheme_wf s (snd (fst sb))
+                                            then symmetric_close m (snd sb) && matches_qf (scheme_qf s (snd (fst sb))) m (snd sb)
+                                            else true) end) (combine objs blocks)
   | KRect H W out =>
       (* the property is silent on shapes a mapper cannot have (Rectangular demands >= 3 x 3; the 4-neighbourhood needs >= 2 x 2) *)
       if (2 <=? H)%nat && (2 <=? W)%nat then list_eqb (list_eqb Z.eqb) out (map (map Z.of_nat) (grid_rows H W)) && nb_ok (grid_rows H W)
       else true
-  | KCov pts tbl out =>
-      let n := length pts in
-      square n out && symmetric_close n out
-      && forallb (fun a => forallb (fun b =>
-            close (@mget QOps out a b)
-                  (Qred ((if Nat.eqb a b then eps8 else 0) + tbl_lookup tbl (@dist2 QOps (nth a pts (0, 0)) (nth b pts (0, 0))))))
-           (seq 0 n)) (seq 0 n)
+  | KCov pts tbl out => cov_spec pts tbl out
+  | KCovX pts tbl vals idx => cov_spec pts tbl (decode vals idx)
   | KKernel coef cov out =>
       let n := length cov in
       square n out
       && forallb (fun a => forallb (fun b => close_inv (@mget QOps out a b) (@mget QOps out b a)) (seq 0 n)) (seq 0 n)
       && list_eqb (list_eqb close_inv) (mat_mul_q out cov) (scaled_identity coef n)
+  | KAssembly sz blocks out outr =>
+      let n := fold_left Nat.add (map fst sz) 0%nat in
+      let regd := map snd (filter (fun sb => snd (fst sb)) (combine sz blocks)) in
+      let nr := fold_left Nat.add (map (@length qv) regd) 0%nat in
+      Nat.eqb (length sz) (length blocks)
+      && assembled n blocks out && assembled nr regd outr
+      && forallb (fun sb => square (fst (fst sb)) (snd sb) && (snd (fst sb) || all_zero (snd sb))) (combine sz blocks)
   end.
 
 Definition check (k : case) : nat := verdict (agree k) (spec_ok k).
